@@ -1,6 +1,7 @@
 pub mod explore;
 pub mod report;
 pub mod store;
+pub mod stubs;
 pub mod world;
 
 pub use explore::{bfs, fp128, Bounds, KnownMatcher, Model, RunStats, Step, Violation};
